@@ -987,7 +987,9 @@ func (m *Machine) conv(fr *frame, dst, src types.Type, x Value) Value {
 	if ds, ok := dst.Underlying().(*types.Slice); ok && isString(src) {
 		s, ok := x.(string)
 		if !ok {
-			m.engineErr("conversion of symbolic string to slice")
+			if s, ok = m.degradeNumeral(x); !ok {
+				m.engineErr("conversion of symbolic string to slice")
+			}
 		}
 		ek, _ := basicInfo(ds.Elem())
 		arr := &ArrObj{ID: m.newID()}
@@ -1072,6 +1074,15 @@ func (m *Machine) sliceOp(fr *frame, in *ssa.Slice) Value {
 		}
 		return Slice{Arr: ao, Off: int(lo), Len: int(hi - lo), Cap: int(max - lo)}
 	case T:
+		if d, ok := m.degradeNumeral(v); ok {
+			if hi < 0 && in.High == nil {
+				hi = int64(len(d))
+			}
+			if lo < 0 || hi < lo || hi > int64(len(d)) {
+				m.runtimePanic(fr, "slice bounds out of range [%d:%d] with length %d", lo, hi, len(d))
+			}
+			return d[lo:hi]
+		}
 		m.engineErr("slicing a symbolic string")
 	}
 	m.engineErr("slice of %T", x)
@@ -1150,6 +1161,11 @@ func (m *Machine) index(fr *frame, in *ssa.Index) Value {
 	case string:
 		i := m.idx(fr, it, len(v), ik.signed)
 		return m.C.BVC(uint64(v[i]), 8)
+	case T:
+		if d, ok := m.degradeNumeral(v); ok {
+			i := m.idx(fr, it, len(d), ik.signed)
+			return m.C.BVC(uint64(d[i]), 8)
+		}
 	}
 	m.engineErr("index of %T", x)
 	return nil
